@@ -78,7 +78,7 @@ def sourceHashes : List (String × String) :=
   [("Interpreter.Compile", "0af2ee423e207830"),
    ("Interpreter.compileSrc", "9427d3d379f61f48"),
    ("Interpreter.CompileAST", "0472806e9941054a"),
-   ("Interpreter.Execute", "19fb5462ea693d28")] ++
+   ("Interpreter.Execute", "c568aa6d3c471274")] ++
   [("scope.add", "441317678d25bfc3"),
    ("scope.lookup", "cc08c4552fe1b40f"),
    ("Interpreter.initScopePkg", "63b314ce3e13a2d6"),
